@@ -155,3 +155,32 @@ def fam_e3(bases: Iterable[Config], *, backends=('fork', 'spawn'), workers=(1, 2
                         continue
                     yield E3Config(base=b, backend=be, max_workers=mw, cpu_count=cpu_count, die_exit0=dx,
                                    liveness_choice=liveness)
+
+
+def fam_real(bases: Iterable[Config], *, backends=('fork', 'spawn'), workers=(2,)):
+    """(config, backend, max_workers) triples for real fork/spawn conformance runs (E4)."""
+    for b in bases:
+        for be in backends:
+            for mw in workers:
+                yield (b, be, mw)
+
+
+def real_bases(kind: str = 'plain'):
+    """A small fixed list of configurations exercised on the real process backends."""
+    out = []
+    shapes = [((), ()), ((), (0,)), ((), (), (0, 1)), ((), (0,), (0,), (1, 2))]
+    for sh in shapes:
+        n = len(sh)
+        req = tuple((i, False) for i in range(n))
+        if kind == 'plain':
+            out.append(Config(spec=mk_spec(sh), requested=req))
+            out.append(Config(spec=mk_spec(sh), requested=((n - 1, False),), precached=(0,)))
+        elif kind == 'limits':
+            out.append(Config(spec=mk_spec(sh, types=('TB',) * n), requested=req))
+            out.append(Config(spec=mk_spec(sh, types=('TA', 'TC', 'TB', 'TA')[:n]), requested=req))
+        elif kind == 'faults':
+            out.append(Config(spec=mk_spec(sh), requested=req, faults=(0,)))
+            out.append(Config(spec=mk_spec(sh), requested=req, died=(0,)))
+            if n > 2:
+                out.append(Config(spec=mk_spec(sh), requested=req, faults=(1,), died=(n - 1,)))
+    return out
